@@ -233,7 +233,9 @@ def hostile(rng, files, trig=0.15):
     r = rng.random()
     if r < .05:
         return eof_program(rng)
-    if r < .08:
+    if r < .13:
+        return ''.join(fstring_program(rng) for _ in range(rng.choice([1, 1, 2, 3])))
+    if r < .16:
         return ''.join(inflate(split_keep(corpus_slice(rng, files, maxlines=12, inject=(0, 1)) if rng.random() < .6 else mixed(rng)), rng))
     if r < .30:
         return mixed(rng)
@@ -359,6 +361,47 @@ def inflate(lines, rng):
     ind = nxt[:len(nxt) - len(nxt.lstrip(' \t'))] if nxt.strip() else ''
     lines.insert(k, long_token_line(rng, ind))
     return lines
+
+
+# ---------------------------------------------------------------------------
+# structured f-strings: prefix, quote, text / replacement-field parts with layout between all components, cut at a random component
+# (an atom soup almost never lines up "open field, line break, blanks, closing quote")
+
+_FS_WS = ['', '', '', ' ', '  ', '\n', '\n    ', '\\\n', '\\\n  ', '\t', '\r', '\r\n', '\x0c', ' \n ', '\\\r\n']
+_FS_TEXT = ['', 'a', 'a b', '{{', '}}', '\\n', '\\', '%d', '#', "it's", 'say "hi"', '\\N{DASH}', '\\{', ':', '!', '=', '\xe9', '\x1e', "'" * 3, '"' * 3]
+_FS_EXPR = ['a', 'x.y', 'f(1)', 'a[0]', "d['k']", 'd["k"]', 'a + b', '(yield)', 'lambda: 0', 'x := 1', '(x := 1)', '*a', 'a if b else c', '', '1', "'s'", '"s"',
+            'not a', 'a, b', '{1: 2}', '{a}', 'a!=b', 'a==b', '\n a', 'a\\\n', '#c', 'await z']
+_FS_SPEC = ['', '>10', '.2f', '{w}', '{w}.{p}', '=^30', '>{w:{f}}', 'x}}', '{{', '\n', ' ', '#x', '%Y-%m', '!r', ':']
+
+
+def fstring_literal(rng, depth=0):
+    pre = rng.choice(['f', 'F', 'rf', 'fr', 'Rf', 'fR', 'f', 'f'])
+    q = rng.choice(['"', "'", '"' * 3, "'" * 3])
+    comps = []
+    for _ in range(rng.randint(1, 4)):
+        if rng.random() < .4:
+            comps.append(rng.choice(_FS_TEXT))
+        else:
+            e = rng.choice(_FS_EXPR) if depth or rng.random() < .9 else fstring_literal(rng, depth + 1)
+            comps += ['{', rng.choice(_FS_WS), e, rng.choice(_FS_WS)]
+            if rng.random() < .15:
+                comps.append('=')
+            if rng.random() < .2:
+                comps.append(rng.choice(['!r', '!s', '!a', '!x', '!', '! r']))
+            if rng.random() < .35:
+                comps += [':', rng.choice(_FS_SPEC)]
+            comps += [rng.choice(_FS_WS), '}']
+    if rng.random() < .3:
+        comps = comps[:rng.randint(0, len(comps))]          # cut: a field stays open, a spec unfinished
+    return pre + q + ''.join(comps) + rng.choice(_FS_WS) + (q if rng.random() < .9 else '')
+
+
+def fstring_program(rng):
+    lit = fstring_literal(rng)
+    t = rng.choice(['x = %s\n', '%s\n', 'f(%s)\n', 'x = %s', 'x = (%s,\n 1)\n', 'def g():\n    return %s\n', "y = 'a' %s 'b'\n", 'x = %s + 1\n', 'print(%s, %s)\n',
+                    'if %s: pass\n', 'x = [%s for a in b]\n', '%s\ny = 1\n'])
+    out = t.replace('%s', lit, 1)
+    return out.replace('%s', fstring_literal(rng)) if '%s' in out else out
 
 # ---------------------------------------------------------------------------
 # histories (C04, C20)
